@@ -14,7 +14,10 @@ without Hypothesis.
                  function text in another module), in-place `f.__code__ = g.__code__`, drop + gc,
                  requests through to_graph / convert(...)() / converted_call / PyToPy.transform with
                  an option set from a pool of 8, re-calling an earlier result, a conversion that fails
-                 half way (loader fault) followed by a normal request.
+                 half way (loader fault) followed by a normal request, a request made from inside a
+                 do_not_convert function (conversion DISABLED in the calling context only; on the same
+                 thread or on a helper thread, operation `dreq`) followed later by ordinary requests of
+                 the same function object under the same option set.
  (b) schedules   harness-owned: 2..4 threads each run one PyToPy.transform on a transpiler whose
                  cache and lock are scheduler-aware proxies; every `has`, cache read, cache write,
                  lock acquire and transform_ast entry/exit is a scheduling point that blocks until the
@@ -473,6 +476,7 @@ class History(object):
     self.memo = {}
     self.reqlog = []     # (code weakref, eff tuple, uid, env sig)
     self.nt = set()
+    self.dislog = []     # (function weakref, eff tuple, where, kind) of requests made inside a do_not_convert region
     self._retx_seen = 0
     self.opno = 0
 
@@ -689,11 +693,68 @@ class History(object):
     self.classes['outcome:' + act['out'][0]] += 1
     self.classes['cache_hit' if after == before else 'cache_miss'] += 1
     self._classify(e, eff, after - before)
+    self._classify_after_disabled(kind, f, eff)
     self.compare(kind, act, ref, {'function': e.desc, 'options': eff, 'arg': arg})
     if keep:
       self.results[self.nreq] = (keep[0], e.selfargs, uid, kind, eff)
       while len(self.results) > 8:
         self.results.popitem(last=False)
+
+  # -- requests made while conversion is disabled in the calling context
+  def _observe_disabled(self, thunk, where):
+    """Observes thunk() called from inside a do_not_convert function, on this thread or on a helper thread (the
+    conversion status is a per-thread context; the caches are process-wide)."""
+    region = api.do_not_convert(thunk)
+    if where != 'thread':
+      return observe(region)
+    box = []
+    t = threading.Thread(target=lambda: box.append(observe(region)))
+    t.start()
+    t.join()
+    if not box:
+      raise RuntimeError('helper thread of a disabled-context request died')
+    return box[0]
+
+  def op_dreq(self, kind, uid, opts, arg, where):
+    """The request `kind` made from inside a do_not_convert region.  It is itself compared with the same disabled
+    request in a fresh world; what matters is what it leaves behind for the ordinary requests that follow."""
+    e = self._ent(uid)
+    eff = effective(kind, opts)
+    f = getattr(e.fn, '__func__', e.fn)
+    with world(self.tr, self.allow):
+      act = self._observe_disabled(lambda: self._exec(kind, e, eff, arg), where)
+    key = ('disabled', uid, kind, repr(eff), arg)
+    if key not in self.memo:
+      with world(SpyTranspiler(), _new_allow()):
+        self.memo[key] = self._observe_disabled(lambda: self._exec(kind, e, eff, arg), 'same')
+    ref = self.memo[key]
+    self.nreq += 1
+    self.classes['dreq:' + kind] += 1
+    self.classes['dreq:where=' + where] += 1
+    self.classes['outcome:' + act['out'][0]] += 1
+    self.dislog.append((weakref.ref(f), (eff[0], eff[1], eff[2], tuple(eff[3])), where, kind))
+    if len(self.dislog) > 100:
+      del self.dislog[0]
+    self.compare('disabled_' + kind, act, ref, {'function': e.desc, 'options': eff, 'arg': arg, 'where': where})
+
+  def _classify_after_disabled(self, kind, f, eff):
+    """Counts ordinary requests of a function object that was requested earlier from a disabled context."""
+    et = (eff[0], eff[1], eff[2], tuple(eff[3]))
+    seen = set()
+    for r, et2, where, k2 in self.dislog:
+      if r() is not f:
+        continue
+      tags = ['after_disabled:same_fn']
+      if et2 == et:
+        tags.append('after_disabled:same_fn_equal_opts')
+        if kind in ('convert', 'ccall') and k2 in ('convert', 'ccall'):
+          # both requests hand this very function object to the call wrapper under equal options
+          tags.append('after_disabled:same_fn_equal_opts_via_wrapper')
+          tags.append('after_disabled:same_fn_equal_opts_via_wrapper:' + where)
+      for t in tags:
+        if t not in seen:
+          seen.add(t)
+          self.classes[t] += 1
 
   def op_recall(self, rid, arg):
     if rid not in self.results:
@@ -774,6 +835,7 @@ def make_machine(sink, max_steps):
       self.excluded = collections.Counter()
       self.rids = []
       self.last = {}     # uid -> last (kind, option index, arg) requested
+      self.dis = []      # (uid, kind, option index) requested from inside a do_not_convert region
 
     # -- plumbing
     def emit(self, op):
@@ -1017,7 +1079,9 @@ def make_machine(sink, max_steps):
         self.follow(fo, [u2])
 
     def _req(self, kind, j, o, arg):
-      u = self.pick_ent(j)
+      self._req_uid(kind, self.pick_ent(j), o, arg)
+
+    def _req_uid(self, kind, u, o, arg):
       if u is None:
         return
       self.last[u] = (kind, o, arg)
@@ -1063,6 +1127,35 @@ def make_machine(sink, max_steps):
       shared = sorted(u for g in groups.values() if len(g) > 1 for u in g)
       if shared:
         self.emit(['req', kind, shared[j % len(shared)], OPTS[o], arg])
+
+    @stateful.rule(j=st.integers(0, 99), o=st.integers(0, len(OPTS) - 1), arg=st.integers(-1, 4),
+                   kind=st.sampled_from(('convert', 'convert', 'ccall', 'ccall', 'to_graph', 'transform')),
+                   where=st.sampled_from(('same', 'thread')), before=st.booleans(), after=st.integers(0, 3))
+    def req_disabled(self, j, o, arg, kind, where, before, after):
+      """The request made from inside a do_not_convert function (this thread / a helper thread): conversion is
+      disabled in that calling context only, so the ordinary requests around it are answered as ever."""
+      u = self.pick_ent(j)
+      if u is None:
+        return
+      if before:
+        self.emit(['req', kind, u, OPTS[o], arg])
+      self.emit(['dreq', kind, u, OPTS[o], arg, where])
+      self.dis.append((u, kind, o))
+      self.last[u] = (kind, o, arg)      # the drop rule repeats it on survivors
+      if after == 0:
+        self.emit(['req', kind, u, OPTS[o], arg])
+        if kind in ('to_graph', 'transform'):
+          self.rids.append(self.h.nreq)
+
+    @stateful.rule(k=st.integers(0, 99), arg=st.integers(-1, 4), same_kind=st.booleans(), kind2=st.sampled_from(KINDS))
+    def req_after_disabled(self, k, arg, same_kind, kind2):
+      """Later in the history: an ordinary request of a function object once requested from a disabled context, under
+      the same option set (through the same or another entry point)."""
+      cands = [d for d in self.dis if d[0] in self.ents]
+      if not cands:
+        return
+      u, kind, o = cands[k % len(cands)]
+      self._req_uid(kind if same_kind else kind2, u, o, arg)
 
     @stateful.rule(r=st.integers(0, 99), arg=st.integers(-1, 4))
     def recall(self, r, arg):
